@@ -29,7 +29,7 @@ shutil.copy(demo_src, demo_dst)
 demo_cmd = meta.get('demo_cmd') or 'go test -vet=off -count=1 .'
 if 'go test' in demo_cmd:  # keep only the go test invocation itself
     demo_cmd = demo_cmd[demo_cmd.index('go test'):]
-    for sep in [';', '&&', '||', '|']:
+    for sep in [' ; ', '; ', ' && ', ' || ', ' | ']:
         if sep in demo_cmd:
             demo_cmd = demo_cmd[:demo_cmd.index(sep)]
     demo_cmd = demo_cmd.strip().rstrip(')')
